@@ -314,7 +314,7 @@ impl<'a> ExecutionEngine<'a> {
 
     fn update_limit(&mut self, limit: Option<usize>, mut output: ExecutionOutput) -> ExecutionOutput {
         if let Some(row) = output.result_row.as_ref() {
-            self.num_output_rows += row.data.iter().filter(|row| row.any_result()).count();
+            self.num_output_rows += row.data.len();
         }
 
         if let Some(limit) = limit {
